@@ -43,6 +43,12 @@ class TrashPutReporter:
         return log_str(Level.WARNING, LogTag.trash_failed,
                        ["cannot trash %s '%s'" % (self._describe(path), path)])
 
+    @staticmethod
+    def unable_to_trash_mount_point(path,  # type: str
+                                    ):  # type: (...) -> LogEntry
+        return log_str(Level.WARNING, LogTag.trash_failed,
+                       ["cannot trash mount point '%s'" % path])
+
     def unable_to_trash_file(
             self,
             trashee,  # type: Trashee
